@@ -30,7 +30,13 @@ def gen_cases(ctx, n):
                 w, h = w2, h2
             # standard mode: half of the predicted pictures do not retransmit format and modes (PLUSPTYPE with UFEP = 000)
             plus = {"ufep": 0} if (mode == "std" and pt == "P" and rng.below(2)) else None
-            b, d = picgen.gen_picture(rng, mode, pt, w, h, stuffing_p=rng.choice([0, 0, 15]), extra=[] if rng.below(3) else None, plus=plus)
+            # standard mode: a third of the predicted pictures end early (fewer macroblocks than the picture holds): in a stream
+            # the loop then meets the padding and the next start code, probes for a resynchronisation point and must leave them
+            trunc = None
+            if mode == "std" and pt == "P" and rng.below(3) == 0:
+                trunc = rng.below(((w + 15) // 16) * ((h + 15) // 16))
+            b, d = picgen.gen_picture(rng, mode, pt, w, h, stuffing_p=rng.choice([0, 0, 15]), extra=[] if rng.below(3) else None, plus=plus,
+                                      truncate_mbs=trunc)
             pics.append(b)
             stream.extend(b)
             # fewer than eight zero bits up to the next byte boundary
